@@ -22,7 +22,6 @@ import (
 	v1 "github.com/fatedier/frp/pkg/config/v1"
 	"github.com/fatedier/frp/pkg/msg"
 	plugin "github.com/fatedier/frp/pkg/plugin/server"
-	"github.com/fatedier/frp/pkg/util/log"
 	"github.com/fatedier/frp/server/controller"
 	"github.com/fatedier/frp/server/group"
 	"github.com/fatedier/frp/server/ports"
@@ -264,7 +263,7 @@ func genReq(g *hx.Gen, allow []int, usedT, usedU []int) pxyReq {
 }
 
 func runPxy(cfg *hx.RunCfg) error {
-	log.InitLogger("/dev/null", "error", 0, true)
+	hx.Quiet()
 	g := hx.NewGen(cfg.Seed*104729 + 5)
 	cf := &hx.CaseFile{Imports: coqImports, Typ: "case"}
 	dist := map[string]int{}
